@@ -174,7 +174,11 @@ func (m *C14Monitor) AfterTx(c *Chain, ctx sdk.Context, tx sdk.Tx, ok bool) {
 				m.withdrawn[hex.EncodeToString(qid)] = true
 				amt, tip, sender, okd := DecodeDepositAmount(agg.AggregateValue)
 				bz, _ := hex.DecodeString(agg.AggregateValue)
-				rcp, _ := hex.DecodeString(strings.TrimPrefix(x.Recipient, "0x"))
+				rcp, herr := hex.DecodeString(strings.TrimPrefix(x.Recipient, "0x"))
+				if herr != nil { // (an empty recipient is hex for the zero address: the sender's own business)
+					// nothing that could be encoded "as the recipient": such a request cannot be served
+					c.Violate("C14", "c14", "withdrawal-accepted-although-the-recipient-is-not-a-hex-address", map[string]interface{}{"id": id.Id, "recipient": fmt.Sprintf("%q", x.Recipient)})
+				}
 				var rcp20 [20]byte
 				if len(rcp) >= 20 {
 					copy(rcp20[:], rcp[len(rcp)-20:])
@@ -246,13 +250,13 @@ func (m *C14Monitor) outcomes(c *Chain, br *BlockResult) {
 			switch x := msg.(type) {
 			case *bridgetypes.MsgClaimDepositsRequest:
 				for _, id := range x.DepositIds {
-					if id <= 13 {
+					if id <= 14 {
 						m.st.Bucket("c14|claim-attempt|deposit=%d|%s", id, reason)
 					}
 				}
 			case *oracletypes.MsgSubmitValue:
 				if isB, toLayer := bridgeQueryKind(x.QueryData); isB && toLayer {
-					for id := uint64(5); id <= 13; id++ {
+					for id := uint64(5); id <= 14; id++ {
 						if string(x.QueryData) == string(BridgeQuery(true, id)) {
 							m.st.Bucket("c14|hostile-deposit-report|deposit=%d|%s", id, reason)
 						}
